@@ -460,6 +460,36 @@ def rule_p5(ctx, F):
                     {"site": fn.loc(v.pt), "path": srch.render_path(v.path)[-5:]})
 
 
+def rule_p6(ctx, F):
+    """P6: needs_recompile answers "no" only after comparing *every* listed source with the library:
+    a missing library or any source newer than it means "yes"."""
+    from rsrules import iter_vet, text_gate
+    fn = ctx.need_fn(F, "needs_recompile", "P6")
+    if not fn:
+        return
+    def ok_points(val):
+        out = []
+        for pt, e in fn.points():
+            for x in own_walk(e):
+                if x.get("k") == "assign" and show(x["l"]) == "_0" and strip(x["r"]).get("k") == "agg" and strip(x["r"]).get("variant") == "Ok":
+                    f = strip(x["r"]).get("fields") or []
+                    if f and strip(f[0]["e"]).get("k") == "int" and bool(strip(f[0]["e"]).get("v")) == val:
+                        out.append(pt)
+        return out
+    no, yes = ok_points(False), ok_points(True)
+    ctx.floor("`up to date` returns of needs_recompile", len(no), 1)
+    ctx.floor("`stale` returns of needs_recompile", len(yes), 2)
+    iter_vet(ctx, "P6", "needs_recompile:every-source-compared", fn, [((" > ", "lib_mtime"), False), (("::gt(",), False), ((" > ",), False)], no,
+             "`up to date` is returned only after every listed source was found not newer than the library")
+    text_gate(ctx, "P6", fn, no, [("…and only if the library exists", [(("Path::exists(",), True)]),
+                                  ("…once the list of sources is exhausted", [(("Iterator>::next(", "=None"), True)])], accept_desc="answering `up to date`")
+    mt = calls_named(fn, "mtime")
+    if len(mt) >= 2:
+        ctx.ok("P6", "needs_recompile:compares-modification-times", "library and source modification times are both read (%d calls)" % len(mt))
+    else:
+        ctx.bad("P6", "needs_recompile:compares-modification-times", "needs_recompile no longer reads the modification times of both the library and the sources")
+
+
 def run(ctx):
     ctx.config = "rust"
     F = ctx.extract.rsfacts("tree_sitter_loader")
@@ -472,6 +502,7 @@ def run(ctx):
     rule_p3(ctx, F)
     rule_p4(ctx, F)
     rule_p5(ctx, F)
+    rule_p6(ctx, F)
     return ctx.finish(
         "Protocol-shape rules over rustc MIR of tree-sitter-loader (non-unwind edges): compile only in the Some arm of LockFile::create and never after waiting; the lock is dropped on "
         "every path out and before loading; compilers write temp_path(output) and rename only after every tool run succeeded, removing the temp file on failure; create_new / remove-on-drop / "
